@@ -18,6 +18,11 @@ Lemma no_forbidden_reachable :
   forall e f, In e entries -> In f forbidden -> ~ path calls e f.
 Proof. exact (check_forbidden_ok _ _ _ _ _ forbidden_checked). Qed.
 
+Lemma reachable_set_exact :
+  exists s, reach direct indirect_table excluded entries = Some s /\
+    forall x, memb x s = true <-> exists e, In e entries /\ path calls e x.
+Proof. exact (reach_exact _ _ _ _ _ forbidden_checked). Qed.
+
 Lemma closed_checked :
   check_closed direct indirect_table excluded entries allowed_external = true.
 Proof. vm_compute. reflexivity. Qed.
